@@ -40,6 +40,16 @@ CLAIMED = {
         design="4/C07",
         note="Trusted: as C05. Concurrent arrivals for the last slot are covered by the PB schedules of C03 when present, not by this sequential model.",
         technique="Coq proof (capacity invariant over fold_left step + iff decision theorems) + vm_compute correspondence"),
+    "C16": dict(
+        text="Coq theorems over Model C (configuration store with the OS port probe as an arbitrary oracle) for EVERY edit sequence: no two endpoints share (host, port) in memory or on disk (inductive invariant preserved by all 8 operations incl. refused ones), a removed node is gone from node list, topology keys and neighbour lists and stays gone, write/read round trip, node id = index in the verified sorted name list with both lookups mutual inverses and reader-independent. Tie: after every edit of random edit sequences the real NetworksConfigConstructor / SocketsConfig / SimulaQronNetworkInfo results equal the model's (vm_compute), independent Python oracle states the property directly.",
+        design="9.5/C16 (notes/C16.md)",
+        note="Trusted: Coq kernel; harness patches _check_socket_is_free with a scripted probe (and leaves it real in a few runs); json/file system not modelled; only ASCII node names exercised for sorted vs String.leb.",
+        technique="Coq proof (invariant by induction over edit lists, verified insertion sort) + vm_compute correspondence"),
+    "C17": dict(
+        text="Coq theorems for EVERY n: the complete/ring/path constructions as coded are symmetric simple connected graphs over exactly the given nodes with n(n-1)/2, n, n-1 edges; relabelling and adding k-(n-1) distinct non-edges to a tree preserve the predicates for every choice sequence; range check iff. networkx returning a tree is library behaviour: each sampled tree is checked to be one (in Coq and by the oracle). Tie: construct_topology_config on node lists of 2..12 names, recorded trees and choice sequences replayed in the model.",
+        design="9.5/C17 (notes/C17.md)",
+        note="Trusted: Coq kernel; networkx tree generator (validated per sample, not proved); Python's random for the choice sequence (recorded).",
+        technique="Coq proof (graph predicates for all n, induction) + vm_compute correspondence"),
 }
 
 PENDING_REASON = "machinery for this property is not built yet in this revision (no claim made); see DESIGN.md section 4"
